@@ -34,3 +34,18 @@ Definition stmt_to_raw_bad_time : Prop :=
 Definition stmt_load_text_total : Prop :=
   forall base t perm r, times_ok_b t = true -> to_raw base t = Ok r -> raw_valid_b r = true ->
     exists nw, load_text base t perm = Ok nw.
+
+(** the start stage from the TEXT of the listing (C06): accepted time strings, references that resolve and figures in range
+    give a network, a slot distribution within the track counts and a feasible circulation for every type *)
+From RS Require Import NetSpec LoadStmts LoadFacts EndToEndStmts Tour Flow F32 SlotDist SlotDistStmts StartStageStmts.
+Definition stmt_text_start_stage_returns : Prop :=
+  forall base t r perm i,
+    times_ok_b t = true -> to_raw base t = Ok r ->
+    raw_valid_b r = true -> resolve r = Ok i -> perm_ok i perm -> inst_unsigned i ->
+    exists nw,
+      load_text base t perm = Ok nw /\
+      type_ids nw <> [] /\
+      (figures_u64 nw ->
+       exists a, distribute nw = Ok a /\ allot_within_tracks nw a /\
+         forall ty, In ty (type_ids nw) ->
+           exists slots f, slots_of a ty = Ok slots /\ feasible (build_flow_network nw ty slots) f = true).
